@@ -51,17 +51,36 @@ class SymNd(rnp.ndarray):
             return (plain(e) != 0).t
         return z3.BoolVal(bool(e != 0))
 
-    def any(self, *a, **k):
+    def _reduce_bool(self, op, empty, axis):
+        if axis is not None:
+            a = rnp.asarray(self, dtype=object)
+            moved = rnp.moveaxis(a, axis, 0)
+            out = rnp.empty(moved.shape[1:], dtype=object)
+            for idx in rnp.ndindex(out.shape):
+                col = [moved[(j,) + idx] for j in range(moved.shape[0])]
+                out[idx] = SB(z3.simplify(op(*[SymNd._truth(e) for e in col]))) if col else empty
+            return out.view(SymNd)
         if not self.size:
-            return False
-        r = SB(z3.simplify(z3.Or(*[SymNd._truth(e) for e in self.flat])))
+            return empty
+        r = SB(z3.simplify(op(*[SymNd._truth(e) for e in self.flat])))
         return bool(z3.is_true(r.t)) if (z3.is_true(r.t) or z3.is_false(r.t)) else r
 
-    def all(self, *a, **k):
-        if not self.size:
-            return True
-        r = SB(z3.simplify(z3.And(*[SymNd._truth(e) for e in self.flat])))
-        return bool(z3.is_true(r.t)) if (z3.is_true(r.t) or z3.is_false(r.t)) else r
+    def any(self, axis=None, **k):
+        return self._reduce_bool(z3.Or, False, axis)
+
+    def all(self, axis=None, **k):
+        return self._reduce_bool(z3.And, True, axis)
+
+    def sum(self, axis=None, **k):
+        if any(isinstance(e, SB) for e in self.flat):
+            # a symbolic mask counts its true elements
+            return _map(lambda e: ite(e, 1, 0) if isinstance(e, SB) else e, self).sum(axis=axis, **k)
+        return rnp.ndarray.sum(self, axis=axis, **k)
+
+    _ite = staticmethod(lambda c, new, old: ite(c, new, old))
+
+    def _mask_in_tuple(self, k):
+        return isinstance(k, tuple) and sum(1 for e in k if self._is_mask(e)) == 1 and all(self._is_mask(e) or isinstance(e, (slice, int)) for e in k)
 
     def mean(self, axis=None, keepdims=False, **k):
         a = rnp.asarray(self)
@@ -106,11 +125,32 @@ class SymNd(rnp.ndarray):
                 rnp.ndarray.__setitem__(self, idx, ite(SB.lift(k[idx]), v.full[idx], rnp.ndarray.__getitem__(self, idx)))
             return
         if self._is_mask(k):
+            if k.shape != self.shape and k.shape == self.shape[:k.ndim]:
+                k = rnp.broadcast_to(rnp.asarray(k, dtype=object).reshape(k.shape + (1,) * (self.ndim - k.ndim)), self.shape)     # a[mask_over_leading_axes] = v
             vb = rnp.broadcast_to(rnp.asarray(v, dtype=object), self.shape) if not (isinstance(v, rnp.ndarray) and v.shape != self.shape) else None
-            if vb is None:
+            if vb is None or k.shape != self.shape:
                 raise SymbolicBranch("masked assignment from a compressed array under a symbolic mask")
             for idx in rnp.ndindex(self.shape):
-                rnp.ndarray.__setitem__(self, idx, ite(SB.lift(k[idx]), vb[idx], rnp.ndarray.__getitem__(self, idx)))
+                rnp.ndarray.__setitem__(self, idx, self._ite(SB.lift(k[idx]), vb[idx], rnp.ndarray.__getitem__(self, idx)))
+            return
+        if self._mask_in_tuple(k):
+            # a[:, mask] = scalar (one symbolic mask along one axis, slices/ints elsewhere): position j of the mask axis is overwritten iff mask[j]
+            if isinstance(v, rnp.ndarray) and v.ndim:
+                raise SymbolicBranch("masked assignment of an array under a symbolic mask inside an index tuple")
+            pos = [i for i, e in enumerate(k) if self._is_mask(e)][0]
+            m = k[pos]
+            if m.ndim != 1:
+                raise SymbolicBranch("multi-dimensional symbolic mask inside an index tuple")
+            for j in range(m.shape[0]):
+                sub = tuple(j if i == pos else e for i, e in enumerate(k))
+                old = rnp.ndarray.__getitem__(self, sub)
+                if isinstance(old, rnp.ndarray):
+                    new = rnp.empty(old.shape, dtype=object)
+                    for idx in rnp.ndindex(old.shape):
+                        new[idx] = self._ite(SB.lift(m[j]), v, old[idx])
+                    rnp.ndarray.__setitem__(self, sub, new)
+                else:
+                    rnp.ndarray.__setitem__(self, sub, self._ite(SB.lift(m[j]), v, old))
             return
         rnp.ndarray.__setitem__(self, k, v)
 
